@@ -21,6 +21,7 @@ const (
 type Expr struct {
 	S string
 	L int
+	T string // intended parse tree as an S-expression (used by C09); "" = not tracked
 }
 
 // P renders e for a position that needs at least level min.
@@ -149,25 +150,30 @@ func compositions(n, k int, f func([]int)) {
 
 // ---- form constructors ----
 
-func A(s string) Expr        { return Expr{s, LTerm} }
+func A(s string) Expr { return Expr{s, LTerm, s} }
 func Atoms(ss ...string) []Expr {
 	out := make([]Expr, len(ss))
 	for i, s := range ss {
-		out[i] = Expr{s, LTerm}
+		out[i] = Expr{s, LTerm, s}
 	}
 	return out
 }
 
+// AT is an atom whose tree differs from its text.
+func AT(s, tree string) Expr { return Expr{s, LTerm, tree} }
+
 // Bin is an infix operator with result level lvl and operand requirements l, r.
 func Bin(op string, lvl, l, r int) Form {
 	return Form{Name: op, Arity: 2, Build: func(a []Expr) Expr {
-		return Expr{P(a[0], l) + " " + op + " " + P(a[1], r), lvl}
+		return Expr{P(a[0], l) + " " + op + " " + P(a[1], r), lvl, "(" + op + " " + a[0].T + " " + a[1].T + ")"}
 	}}
 }
 
 var (
 	Pipe  = Bin("|", LPipe, LComma, LPipe)
-	Comma = Form{Name: ",", Arity: 2, Build: func(a []Expr) Expr { return Expr{P(a[0], LComma) + ", " + P(a[1], LAlt), LComma} }}
+	Comma = Form{Name: ",", Arity: 2, Build: func(a []Expr) Expr {
+		return Expr{P(a[0], LComma) + ", " + P(a[1], LAlt), LComma, "(, " + a[0].T + " " + a[1].T + ")"}
+	}}
 	Alt   = Bin("//", LAlt, LUpdate, LAlt)
 	Or    = Bin("or", LOr, LOr, LAnd)
 	And   = Bin("and", LAnd, LAnd, LCmp)
@@ -190,6 +196,7 @@ func T(name, tmpl string, arity int, lv ...int) Form {
 func TL(name, tmpl string, arity, lvl int, lv ...int) Form {
 	return Form{Name: name, Arity: arity, Build: func(a []Expr) Expr {
 		s := tmpl
+		tree := "(" + name
 		for i := arity - 1; i >= 0; i-- {
 			min := LPipe
 			if i < len(lv) {
@@ -197,6 +204,13 @@ func TL(name, tmpl string, arity, lvl int, lv ...int) Form {
 			}
 			s = strings.ReplaceAll(s, "%"+string(rune('0'+i)), P(a[i], min))
 		}
-		return Expr{s, lvl}
+		for i := 0; i < arity; i++ {
+			tree += " " + a[i].T
+		}
+		tree += ")"
+		if name == "paren" && arity == 1 {
+			tree = a[0].T
+		}
+		return Expr{s, lvl, tree}
 	}}
 }
